@@ -610,3 +610,31 @@ func init() {
 		IgnoreKinds: []string{"panic", "hang", "deadlock", "spin"},
 	}
 }
+
+func init() {
+	checks["C18"] = &CheckDef{
+		ID: "C18",
+		Jobs: func(tier string, p *Program) []*Job {
+			var jobs []*Job
+			maxK := 2
+			if tier == "thorough" {
+				maxK = 3
+			}
+			for k := 1; k <= maxK; k++ {
+				for _, style := range []string{"emacs", "vi"} {
+					j := mkJob("/internal/macro.ZZ_C18_Unit", "", "k", itoa(k), "style", style)
+					j.Reach = []string{"recorded"}
+					jobs = append(jobs, j)
+				}
+			}
+			return jobs
+		},
+		Assumptions: []string{
+			"recorded keys are k symbolic ASCII bytes (0x00-0x7F: printable, control, ESC, quotes, backslash); they are recorded through core.MatchedKeys + macro.RecordKeys exactly as the main loop does once per resolved key, stored by StopRecord and replayed by RunLastMacro (emacs style) or RunMacro('a') (vi style); the replayed keys are read back with core.PopKey",
+			"non-ASCII keys are outside this check (C02 records that non-ASCII input is dropped before it reaches a command)",
+		},
+		Stubs:  []string{"unicode.IsPrint/ToUpper exact formulas; fmt %x model"},
+		Bounds: map[string]string{"quick": "k <= 2 keys", "thorough": "k <= 3 keys"},
+		Rule:   "one state per completed symbolic path",
+	}
+}
